@@ -5,9 +5,13 @@ pub mod c03;
 pub mod c04;
 pub mod c14;
 pub mod c15;
+pub mod c17;
+pub mod c18;
+pub mod c19;
+pub mod c20;
 
 use crate::framework::CheckSpec;
 
 pub fn all_specs() -> Vec<CheckSpec> {
-  vec![c02::spec(), c03::spec(), c04::spec(), c14::spec(), c15::spec()]
+  vec![c02::spec(), c03::spec(), c04::spec(), c14::spec(), c15::spec(), c17::spec(), c18::spec(), c19::spec(), c20::spec()]
 }
